@@ -1,34 +1,19 @@
 package checks
 
 import (
-	"verif/harness/internal/oracle"
+	"verif/harness/internal/c19"
+	"verif/harness/internal/c20"
+	"verif/harness/internal/c18"
+	"verif/harness/internal/c09"
 	"verif/harness/internal/run"
-	"verif/harness/internal/sched"
-	"verif/harness/internal/spec"
 )
 
-func cyc(f func(m *oracle.Model, events []sched.Event, cycle int, st *oracle.Stats) []run.Violation) CycleOracle {
-	return func(m *oracle.Model, res *sched.CycleResult, after *spec.Objects, c *spec.Case, st *oracle.Stats) []run.Violation {
-		return f(m, res.Events, res.Cycle, st)
-	}
-}
-
-const genRule = "clusters drawn from the PCG stream (VERIF_SEED, case index) by internal/gen profile %q; " +
-	"real cache.New+OpenSession+actions+CloseSession per cycle on the shared in-memory store; world model applies decisions between cycles. "
-
-// RegisterAll registers every check.
+// RegisterAll registers every check. (Scheduler-side checks live in register_sched.go; add one
+// run.Register line per additional check below.)
 func RegisterAll() {
-	run.Register(&SchedCheck{Id: "C01", Profile: "tight", Quick: 320, Thorough: 6000, Oracle: cyc(oracle.CheckC01),
-		RuleText: genRule + "Non-trivial: a case with >=1 successful Bind onto a node that held a terminating or same-cycle-evicted pod, or that ended within 25% of full in a requested resource. Distinct = distinct hash of (objects, config, faults).",
-		Assume:   []string{"DRA-claimed devices and CSI capacity are not checked", "pod slots of future reservation pods are not charged to the bind that opens a GPU group"}})
-	run.Register(&SchedCheck{Id: "C02", Profile: "fractions", Quick: 320, Thorough: 6000, Oracle: cyc(oracle.CheckC02),
-		RuleText: genRule + "Non-trivial: a case that binds a fractional pod into a group that already has a sharer, binds a multi-fraction pod, or binds on a node with <=1 free GPU device.",
-		Assume:   []string{"one accounting unit (1/deviceMemory) of slack per sharer", "device identity of whole-GPU pods is not observable; checked as whole+shared<=count"}})
-	run.Register(&SchedCheck{Id: "C03", Profile: "gangs", Quick: 320, Thorough: 6000, Oracle: cyc(oracle.CheckC03), SkipFaulty: true,
-		RuleText: genRule + "Non-trivial: a case in which a gang with total minimum >= 2 received a bind, nomination or eviction. Evaluated only on cases without injected API write failures.",
-		Assume:   []string{"pods whose sub-group label names no leaf sub-group are ignored (the scheduler ignores them too)", "the eviction clause is judged only for gangs that were at or above minimum in every pod set before the cycle"}})
-	run.Register(&SchedCheck{Id: "C04", Profile: "constraints", Quick: 320, Thorough: 6000, Oracle: cyc(oracle.CheckC04),
-		RuleText: genRule + "Non-trivial: a case with a bind/nomination of a pod whose hard constraints exclude at least one node of the pool, or that carries inter-pod (anti-)affinity terms, or whose group/sub-group has a required topology level.",
-		Assume: []string{"terminating, same-cycle-evicted and merely nominated pods are don't-care for inter-pod terms (either reading accepted)", "only Ready/unschedulable node conditions are demanded",
-			"topology: labels are demanded for the required level and coarser levels only; already active pods pin the domain only if they lie in one domain"}})
+	run.Register(c19.New())
+	run.Register(c18.New())
+	registerSched()
+	run.Register(c09.New())
+	run.Register(c20.New())
 }
